@@ -40,7 +40,7 @@ type c09Case struct {
 	Reps   int           `json:"reps"`
 }
 
-var c09Templates = []string{"straight", "branch", "branch", "while", "while", "for", "nested", "object", "deep", "error"}
+var c09Templates = []string{"straight", "branch", "branch", "while", "while", "for", "nested", "object", "deep", "error", "recurse", "recurse"}
 
 func genC09(rt *rapid.T) c09Case {
 	var c c09Case
@@ -51,6 +51,13 @@ func genC09(rt *rapid.T) c09Case {
 		b := c09Block{T: c09Templates[lang.Spread(rt, "tmpl", len(c09Templates))], K1: lang.Spread(rt, "k1", 9) + 1, K2: lang.Spread(rt, "k2", 7) - 3, N: lang.Spread(rt, "n", 40)}
 		if b.T == "error" && lang.Spread(rt, "keeperr", 3) != 0 {
 			b.T = "straight"
+		}
+		if b.T == "recurse" {
+			// how deep the block's call chain goes: several blocks are deep at the same time
+			b.N = []int{10, 60, 110, 140}[lang.Spread(rt, "depth", 4)]
+			if !c.Interp {
+				b.T = "while" // compiled routes cannot call module functions (recorded under C02)
+			}
 		}
 		c.Blocks = append(c.Blocks, b)
 		var work []c09Parent
@@ -140,6 +147,8 @@ func (c *c09Case) blockSource0(i int, b c09Block) (src string, val interface{}, 
 			inner += b1
 		}
 		return fmt.Sprintf("    $ i = 0\n    $ acc = 0\n    while i < %d {\n      if i %% 2 == 0 {\n        acc = acc + i\n      } else {\n        acc = acc - %d\n      }\n      i = i + 1\n    }\n    $ g = async {\n      $ j = 0\n      $ s = 0\n      while j < %d {\n        s = s + base1\n        j = j + 1\n      }\n      > s\n    }\n    $ inner = await g\n    > acc + inner", b.N, b.K2, b.K1), acc + inner, true
+	case "recurse":
+		return fmt.Sprintf("    > work(%d) + base0", b.N), b.N*(b.N+1)/2 + b0, true
 	case "error":
 		return fmt.Sprintf("    $ z = base0 - base0\n    > %d / z", b.K1), nil, false
 	}
@@ -148,6 +157,12 @@ func (c *c09Case) blockSource0(i int, b c09Block) (src string, val interface{}, 
 
 func (c *c09Case) program() (src string, want string, wantOK bool) {
 	var sb strings.Builder
+	for _, b := range c.Blocks {
+		if b.T == "recurse" {
+			sb.WriteString("! work(n: int): int {\n  if n <= 0 {\n    > 0\n  }\n  > n + work(n - 1)\n}\n\n")
+			break
+		}
+	}
 	sb.WriteString("@ GET /r {\n")
 	fmt.Fprintf(&sb, "  $ base0 = %d\n  $ base1 = %d\n", c.Base[0], c.Base[1])
 	vals := make([]interface{}, len(c.Blocks))
@@ -272,12 +287,12 @@ func runC09(c c09Case) evid.Outcome {
 		}
 	}
 	// every block's goroutine ends, awaited or not
-	deadline := time.Now().Add(3 * time.Second)
+	deadline := time.Now().Add(30 * time.Second)
 	for runtime.NumGoroutine() > afterStart+1 && time.Now().Before(deadline) {
 		time.Sleep(2 * time.Millisecond)
 	}
 	if n := runtime.NumGoroutine(); n > afterStart+1 {
-		return evid.Failf("c09.goroutines-left-behind", "%d goroutines before the server, %d after start-up, still %d three seconds after the last request\n%s", base, afterStart, n, src)
+		return evid.Failf("c09.goroutines-left-behind", "%d goroutines before the server, %d after start-up, still %d thirty seconds after the last request\n%s", base, afterStart, n, src)
 	}
 	labels := []string{fmt.Sprintf("blocks:%d", len(c.Blocks))}
 	kinds := map[string]bool{}
